@@ -20,6 +20,8 @@ pub struct Gen {
     pub maxdim: usize,
     /// vector-heavy run: most calls go to BaseVector methods
     pub vec_bias: bool,
+    /// also build operands through the native API of the back ends (nat_* constructors; C20)
+    pub allow_native: bool,
 }
 
 fn oc(op: &str, a: usize, b: usize, dst: usize, ia: Vec<i64>) -> OpCall {
@@ -28,7 +30,7 @@ fn oc(op: &str, a: usize, b: usize, dst: usize, ia: Vec<i64>) -> OpCall {
 
 impl Gen {
     pub fn new(rng: StdRng, allow_iter: bool, maxdim: usize) -> Gen {
-        Gen { rng, pending: std::collections::VecDeque::new(), allow_iter, maxdim, vec_bias: false }
+        Gen { rng, pending: std::collections::VecDeque::new(), allow_iter, maxdim, vec_bias: false, allow_native: false }
     }
 
     pub fn reset(&mut self) {
@@ -111,7 +113,22 @@ impl Gen {
 
     pub fn build_call(&mut self, dst: usize, r: usize, c: usize) -> OpCall {
         let n = r * c;
-        let d = self.data(n);
+        let mut d = self.data(n);
+        if self.allow_native && self.p(0.3) {
+            let via = self.pick(&[
+                "nat_row_offset", "nat_col_offset", "nat_inplace", "nat_strided", "nat_reversed", "nat_t_owned",
+                "nat_broadcast", "nat_remove_row", "nat_resize", "nat_row_offset",
+            ]);
+            if via == "nat_broadcast" {
+                // a broadcast row: all rows equal
+                for i in 1..r {
+                    for j in 0..c {
+                        d[i * c + j] = d[j];
+                    }
+                }
+            }
+            return OpCall::new(via, 0, 0, dst, vec![r as i64, c as i64], d, vec![]);
+        }
         if r == 1 && self.p(0.5) {
             let via = self.pick(&["row_vector_from_array", "row_vector_from_vec"]);
             return OpCall::new(via, 0, 0, dst, vec![], d, vec![]);
@@ -196,11 +213,77 @@ impl Gen {
 
     fn other_dim(&mut self, d: usize) -> usize {
         loop {
-            let x = self.ru(1, 6);
+            let x = self.ru(1, 6.max(d + 2));
             if x != d {
                 return x;
             }
         }
+    }
+
+    /// a size next to d: one or two more, or one or two less
+    fn off_size(&mut self, d: usize) -> usize {
+        let k = self.ru(1, 2);
+        if d > k && self.p(0.5) {
+            d - k
+        } else {
+            d + k
+        }
+    }
+
+    /// An incompatible call of every binary operation with a VECTOR-SHAPED second operand (1xq or qx1) that
+    /// is over- or under-sized; all four flag combinations of `ab`.
+    fn reject_vec(&mut self, meta: &[Meta]) -> Option<OpCall> {
+        let op = self.pick(&[
+            "add", "sub", "mul", "div", "add_mut", "sub_mut", "mul_mut", "div_mut", "copy_from", "matmul", "matmul", "ab", "ab",
+            "ab", "ab", "h_stack", "v_stack", "approximate_eq", "eq",
+        ]);
+        let bound = if op.starts_with("mul") || op == "matmul" || op == "ab" { SMALL } else { MED };
+        let a = self.pick_m(meta, bound)?;
+        let (r, c) = (meta[a].r, meta[a].c);
+        let dst = self.any_slot();
+        let row = self.p(0.5); // B is 1 x q, otherwise q x 1
+        let (ia, need): (Vec<i64>, usize) = match op {
+            "matmul" => (vec![], c),
+            "ab" => {
+                let ta = self.p(0.5);
+                let tb = self.p(0.5);
+                (vec![ta as i64, tb as i64], if ta { r } else { c })
+            }
+            "h_stack" => (vec![], r),
+            "v_stack" => (vec![], c),
+            "approximate_eq" => (vec![self.ri(0, 3)], 0),
+            _ => (vec![], 0),
+        };
+        let q = if need == 0 { self.ru(1, 7) } else { self.off_size(need) };
+        // which dimension of B takes part in the contract
+        let (br, bc) = match op {
+            "matmul" => {
+                if row && c != 1 { (1, q) } else { (q, 1) }          // rows of B must equal c
+            }
+            "ab" => {
+                let tb = ia[1] == 1;
+                // rows of op(B) must equal `need`: op(B) = B^T when tb
+                if tb {
+                    if row || need == 1 { (1, q) } else { (q, 1) }   // B = 1 x q: B^T has q rows
+                } else if !row || need == 1 {
+                    (q, 1)
+                } else {
+                    (1, q)                                           // 1 row, need != 1
+                }
+            }
+            "h_stack" => {
+                if row && r != 1 { (1, q) } else { (q, 1) }
+            }
+            "v_stack" => {
+                if !row && c != 1 { (q, 1) } else { (1, q) }
+            }
+            _ => {
+                // element-wise, copy, equality: any vector shape different from A's shape
+                let (x, y) = if row { (1, q) } else { (q, 1) };
+                if (x, y) == (r, c) { (x + 1, y) } else { (x, y) }
+            }
+        };
+        Some(self.with_b(meta, oc(op, a, 0, dst, ia), br, bc, bound))
     }
 
     pub fn step(&mut self, meta: &[Meta]) -> OpCall {
@@ -220,6 +303,7 @@ impl Gen {
             let r = match cat {
                 0..=7 => Some(self.build_any()),
                 8..=9 | 98 | 99 if !self.vec_bias || cat < 10 => self.layout_pair(meta),
+                36..=38 => self.reject_vec(meta),
                 10..=24 => self.structural(meta),
                 25..=35 => self.unary_arith(meta),
                 36..=46 => self.binary_elem(meta),
@@ -643,14 +727,14 @@ impl Gen {
             1 | 2 => Some(oc("to_row_vector", self.pick_m(meta, ANY)?, 0, dst, vec![])),
             3 => Some(oc("from_row_vector", self.pick_v(meta, ANY)?, 0, dst, vec![])),
             4 => Some(self.build_vec(dst, None)),
-            5 | 6 | 7 => {
+            5..=9 => {
                 let op = self.pick(&["v_add", "v_sub", "v_mul", "v_div", "v_add_mut", "v_sub_mut", "v_mul_mut", "v_div_mut", "v_copy_from", "v_dot"]);
                 let bound = if op.starts_with("v_mul") || op == "v_dot" { SMALL } else { MED };
                 let a = self.pick_v(meta, bound)?;
                 let len = if self.p(0.7) { meta[a].c } else { self.other_dim(meta[a].c) };
                 Some(self.with_vb(meta, oc(op, a, 0, dst, vec![]), len, bound))
             }
-            8 | 9 => {
+            10 | 11 => {
                 let op = self.pick(&[
                     "v_add_scalar", "v_sub_scalar", "v_mul_scalar", "v_add_scalar_mut", "v_sub_scalar_mut", "v_mul_scalar_mut",
                     "v_div_scalar", "v_div_scalar_mut",
@@ -662,13 +746,13 @@ impl Gen {
                 }
                 Some(oc(op, a, 0, dst, vec![s]))
             }
-            10 => {
+            12 => {
                 let a = self.pick_v(meta, ANY)?;
                 let len = self.ru(1, 6);
                 let iv: Vec<i64> = (0..len).map(|_| self.ru(1, meta[a].c) as i64).collect();
                 Some(OpCall::new("v_take", a, 0, dst, vec![], iv, vec![]))
             }
-            11 => {
+            13 => {
                 let op = self.pick(&["v_set", "v_add_element_mut", "v_sub_element_mut", "v_mul_element_mut", "v_get"]);
                 let a = self.pick_v(meta, 10_000.0)?;
                 let i = self.ru(1, meta[a].c) as i64;
@@ -678,7 +762,7 @@ impl Gen {
                     Some(oc(op, a, 0, 0, vec![i, self.ri(-9, 9)]))
                 }
             }
-            12 | 13 | 14 => {
+            14..=16 => {
                 let op = self.pick(&[
                     "v_len", "v_to_vec", "v_sum", "v_norm1", "v_norm_inf", "v_norm_ninf", "v_norm2sq", "v_normp", "v_unique", "v_mean",
                     "v_var", "v_std", "v_clone", "v_norm_half",
